@@ -52,7 +52,7 @@ extern "C" void harness(void)
 #endif
 	store.soPIN = d.soEncryptedKey; store.userPIN = d.userEncryptedKey;          // memory and disk agree (invariant, re-checked below)
 	t.valid = true; t.token = &store; t.sdm = &d; t.tokenMutex = MutexFactory::i()->getMutex();
-	bool so0 = d.soLoggedIn, us0 = d.userLoggedIn;
+	bool so0 = d.soLoggedIn, us0 = d.userLoggedIn; unsigned long locks0 = vmutex_lock_count(t.tokenMutex);
 	// arguments
 	unsigned char al = nondet_uchar() % 3, a0 = nondet_uchar(), a1 = nondet_uchar(); ByteString oldArg = pinOf(al, a0, a1);
 	unsigned char nl = nondet_uchar() % 3, n0 = nondet_uchar(), n1 = nondet_uchar(); ByteString newArg = pinOf(nl, n0, n1);
@@ -61,6 +61,7 @@ extern "C" void harness(void)
 	bool oldIsSO = al == sl && a0 == s0 && (sl < 2 || a1 == s1);
 #if OP == 0      // ---------------- C_SetPIN as / for the normal user
 	CK_RV rv = t.setUserPIN(oldArg, newArg);
+	vassert(vmutex_lock_count(t.tokenMutex) - locks0 == 1 && vmutex_depth(t.tokenMutex) == 0);   // C18: the whole PIN operation is ONE critical section of tokenMutex (nothing sampled outside and acted on inside)
 	SecureDataManager& m = *t.sdm;
 	if (rv == CKR_OK)
 	{
@@ -79,6 +80,7 @@ extern "C" void harness(void)
 	vassert(blob_is(m.soEncryptedKey, soPin) && blob_is(store.soPIN, soPin));       // the SO PIN is never affected
 #elif OP == 1    // ---------------- C_SetPIN as SO
 	CK_RV rv = t.setSOPIN(oldArg, newArg);
+	vassert(vmutex_lock_count(t.tokenMutex) - locks0 == 1 && vmutex_depth(t.tokenMutex) == 0);   // C18: the whole PIN operation is ONE critical section of tokenMutex (nothing sampled outside and acted on inside)
 	SecureDataManager& m = *t.sdm;
 	if (rv == CKR_OK) { vassert(oldIsSO && nl > 0 && so0); vassert(blob_is(m.soEncryptedKey, newArg) && blob_is(store.soPIN, newArg)); vreach(); }
 	else { vassert(blob_is(store.soPIN, soPin)); if (!(oldIsSO && so0 && nl > 0)) vassert(blob_is(m.soEncryptedKey, soPin)); vreach(); }
@@ -86,6 +88,7 @@ extern "C" void harness(void)
 	vassert(userSet ? (blob_is(m.userEncryptedKey, userPin) && blob_is(store.userPIN, userPin)) : (m.userEncryptedKey.size() == 0 && store.userPIN.size() == 0));   // user PIN untouched
 #elif OP == 2    // ---------------- C_InitPIN
 	CK_RV rv = t.initUserPIN(newArg);
+	vassert(vmutex_lock_count(t.tokenMutex) - locks0 == 1 && vmutex_depth(t.tokenMutex) == 0);   // C18: the whole PIN operation is ONE critical section of tokenMutex (nothing sampled outside and acted on inside)
 	SecureDataManager& m = *t.sdm;
 	if (rv == CKR_OK) { vassert((so0 || us0) && nl > 0); vassert(blob_is(m.userEncryptedKey, newArg) && blob_is(store.userPIN, newArg)); vreach(); }
 	else { vassert(userSet ? blob_is(store.userPIN, userPin) : store.userPIN.size() == 0); vreach(); }
